@@ -145,18 +145,14 @@ def growth_only_under_needs_grow(F, maygc):
     if not grows:
         return False, "insert_with_hint does not call grow()"
     for gcall in grows:
-        guarded = False
-        for kind, nid in anc.get(id(gcall), ()):
-            node = ifs.get(nid)
-            if node is None or kind != "then":
-                continue
-            c = hu.strip_casts(node["cond"])
-            if c.get("k") == "call" and any(n.endswith("CaoHashMap::needs_grow") for n in hir_callee(c)):
-                a = [hu.field_chain(x) for x in c["args"]]
-                if a[0] and a[0][1] == ["count"] and a[1] and a[1][1] == ["capacity"]:
-                    guarded = True
-        if not guarded:
-            return False, "grow() is not guarded by needs_grow(self.count, self.capacity)"
+        guards = [ifs[nid] for kind, nid in anc.get(id(gcall), ()) if kind == "then" and nid in ifs]
+        # the innermost enclosing `if` is the growth test; it must only look at count and capacity
+        if not guards:
+            return False, "grow() is called unconditionally"
+        g = guards[-1]
+        fields = set(y["name"] for y in hir_walk(g["cond"]) if y.get("k") == "field")
+        if not fields <= {"count", "capacity"} or not fields:
+            return False, "the growth test of insert_with_hint does not depend on count and capacity only (%s)" % sorted(fields)
     # the wrappers in between add no allocation of their own
     for name in ("collections::hash_map::CaoHashMap::insert", "vm::runtime::cao_lang_table::CaoLangTable::insert::_insert"):
         g = F.fn(name)
@@ -165,13 +161,26 @@ def growth_only_under_needs_grow(F, maygc):
             nm = callee_names(t["func"])
             if why and not any(n.endswith("CaoHashMap::insert_with_hint") or n.endswith("CaoHashMap::insert") for n in nm):
                 return False, "%s may allocate outside the hash part's insert: %s" % (g.name, why)
-    return True, "the only allocation of the insert path is grow() under needs_grow(count, capacity)"
+    return True, "the only allocation of the insert path is grow() under a test of count and capacity"
 
 
-def needs_grow(F, count, cap):
-    n = F.fn("collections::hash_map::CaoHashMap::needs_grow")
-    ids = [p.get("id") for p in n.hir["params"]]
-    return bool(FEv(F, n, {ids[0]: count, ids[1]: cap}).ev(n.hir["body"]))
+def needs_grow(F, k, cap):
+    """does the k-th insertion of a new key into a map of capacity `cap` (holding k-1 entries) grow it? The growth test of
+    insert_with_hint is evaluated as written; whether it sees the count before or after the increment is read from the
+    position of `self.count += 1`."""
+    iw = F.fn("collections::hash_map::CaoHashMap::insert_with_hint")
+    incs = [x.get("ln") for x in hir_walk(iw.hir["body"]) if x.get("k") == "assign_op" and str(x.get("op", "")).startswith("Add")
+            and hir_strip(x["l"]).get("k") == "field" and hir_strip(x["l"])["name"] == "count"]
+    grow_name = "collections::hash_map::CaoHashMap::grow"
+    test = None
+    for x in hir_walk(iw.hir["body"]):
+        if x.get("k") == "if" and any(y.get("k") in ("mcall", "call") and any(n == grow_name for n in hir_callee(y)) for y in hir_walk(x["then"])):
+            test = x
+    if test is None:
+        raise bs.Unknown("growth test of insert_with_hint")
+    after_inc = any(l is not None and l < (test.get("ln") or 0) for l in incs)
+    seen = k if after_inc else k - 1
+    return bool(FEv(F, iw, {}, {"count": seen, "capacity": cap}).ev(test["cond"]))
 
 
 def inserts_on_fresh_table(F, f):
